@@ -1329,6 +1329,7 @@ def run(out, tier, seed, kinds=KINDS):
         'device_writes_observed': sum(1 for t in traces for e in t['ev'] if e['e'] == 'wr'),
         'traces_with_writes_in_a_second_session': sum(1 for t in traces if _has_second_session_write(t)),
         'sends_on_closed_objects': sum(1 for t in traces for i, e in enumerate(t['ev']) if e['e'] == 'send' and _closed_before(t['ev'], i)),
+        'radio_closes_overlapping_a_transfer': sum(_overlaps(t) for t in traces if t['kind'] == 'radio'),
         'closes_with_a_failing_device_call': sum(1 for t in traces for e in t['ev'] if e['e'] == 'closeb' and e.get('f', 'none') != 'none'),
     }
     if own:
@@ -1386,6 +1387,21 @@ def run(out, tier, seed, kinds=KINDS):
 
 def scs_for_report(scs):
     return [sc if sc is not None else {'ops': None, 'kind': None, 'note': 'replayed TLC behaviour'} for sc in scs]
+
+
+def _overlaps(t):
+    """close() calls of this trace during which the dongle still took a frame (transfer in flight at closeb)."""
+    n = 0
+    inside = hit = False
+    for e in t['ev']:
+        if e['e'] == 'closeb':
+            inside, hit = True, False
+        elif e['e'] == 'close':
+            n += int(inside and hit)
+            inside = False
+        elif e['e'] == 'wr' and inside:
+            hit = True
+    return n
 
 
 def _movable(t):
